@@ -1389,7 +1389,21 @@ func (z *Decimal) Sub(x, y *Decimal) *Decimal {
 
 	// ±0 - y
 	// x - ±Inf
-	return z.Neg(y)
+	// The result is -y rounded as a sum: its sign must be set before rounding
+	// (z.Neg(y) would round y with the wrong sign for directed rounding modes).
+	z.acc = Exact
+	if z != y {
+		z.form = y.form
+		if y.form == finite {
+			z.exp = y.exp
+			z.mant = z.mant.set(y.mant)
+		}
+	}
+	z.neg = !y.neg
+	if z.prec < y.prec {
+		z.round(0)
+	}
+	return z
 }
 
 // Uint64 returns the unsigned integer resulting from truncating x
